@@ -29,8 +29,19 @@ const POOL4: [&str; 4] = ["Ca", "Cb", "Cc", "Cd"];
 pub const TRUE_FORMS: [&str; 3] = ["all()", "not(any())", "all(all())"];
 pub const FALSE_FORMS: [&str; 3] = ["any()", "not(all())", "any(any())"];
 
+thread_local! {
+    /// `--cfgflags <tv>`: predicates are the plain cfg names vp0, vp1, vp2 whose truth comes from real `--cfg`
+    /// flags given to rustc; bit i of tv = "vp<i> is set".
+    pub static FLAG_TRUTH: std::cell::Cell<Option<u32>> = std::cell::Cell::new(None);
+}
+
 pub fn const_truth(p: &str) -> bool {
     let q: String = p.chars().filter(|c| !c.is_whitespace()).collect();
+    if let Some(tv) = FLAG_TRUTH.with(|f| f.get()) {
+        if let Some(i) = q.strip_prefix("vp").and_then(|s| s.parse::<u32>().ok()) {
+            return tv & (1 << i) != 0;
+        }
+    }
     if TRUE_FORMS.contains(&q.as_str()) {
         true
     } else if FALSE_FORMS.contains(&q.as_str()) {
@@ -222,7 +233,8 @@ fn neg_program(archs: &[RArch], query: Option<(Mac, Vec<Param>)>) -> String {
     s
 }
 
-pub fn emit(thorough: bool, dir: &str, only: Option<&str>, shards: usize) -> serde_json::Value {
+pub fn emit(thorough: bool, dir: &str, only: Option<&str>, shards: usize, cfgflags: Option<u32>) -> serde_json::Value {
+    FLAG_TRUTH.with(|f| f.set(cfgflags));
     let repo = std::env::var("GECS_REPO").unwrap_or_else(|_| "/repo".to_string());
     let mut cases: Vec<Case> = Vec::new();
     let mut negs: Vec<Neg> = Vec::new();
@@ -334,7 +346,16 @@ pub fn emit(thorough: bool, dir: &str, only: Option<&str>, shards: usize) -> ser
         if used.len() < 2 {
             continue;
         }
-        for tv in 1..((1u32 << used.len()) - 1) {
+        let flag_tv = FLAG_TRUTH.with(|f| f.get());
+        let tvs: Vec<u32> = match flag_tv {
+            // real flags: one global truth vector; the decoration is interesting if its used slots have mixed truth
+            Some(g) => {
+                let bits: Vec<bool> = used.iter().map(|s| g & (1 << (s - 1)) != 0).collect();
+                if bits.iter().any(|b| *b) && bits.iter().any(|b| !*b) { vec![g] } else { vec![] }
+            }
+            None => (1..((1u32 << used.len()) - 1)).collect(),
+        };
+        for tv in tvs {
             n16 += 1;
             if n16 % stride16 != 0 {
                 continue;
@@ -342,6 +363,9 @@ pub fn emit(thorough: bool, dir: &str, only: Option<&str>, shards: usize) -> ser
             let pred = |slot: usize| -> Option<String> {
                 if slot == 0 {
                     return None;
+                }
+                if flag_tv.is_some() {
+                    return Some(format!("vp{}", slot - 1));
                 }
                 let j = used.iter().position(|u| *u == slot).unwrap();
                 let t = tv & (1 << j) != 0;
@@ -386,11 +410,11 @@ pub fn emit(thorough: bool, dir: &str, only: Option<&str>, shards: usize) -> ser
         }
     }
     // F7 (known finding): cfg on a OneOf parameter, with a TRUE predicate, is rejected
-    negs.push(Neg {
+    if cfgflags.is_none() { negs.push(Neg {
         name: "n16f7".into(), prop: "C16",
         program: neg_program(&[RArch { name: "A0".into(), id: None, cfg: None, comps: vec![RComp { name: "Ca".into(), id: None, cfg: None }] }], Some((Mac::Iter, vec![Param { ty: PType::OneOf(vec!["Ca".into(), "Cb".into()]), is_mut: false, cfg: Some("all()".into()) }]))),
         expect: "cfg attributes not currently supported on OneOf".into(),
-    });
+    }); }
 
     if let Some(p) = only {
         cases.retain(|c| c.prop == p);
